@@ -246,6 +246,17 @@ func timeEnv() {
 	envFuncs["(time.Time).Add"] = func(fc *FnCtx, fr *Frame, st *State, reach string, args []Val, call ssa.CallInstruction) Val {
 		return freshTime(fc, st, res(call), sx("+", tnanos(fc, args[0]), args[1].S))
 	}
+	// timers and tickers created by package time exist (T3)
+	for _, n := range []string{"time.NewTimer", "time.NewTicker", "time.AfterFunc"} {
+		envFuncs[n] = func(fc *FnCtx, fr *Frame, st *State, reach string, args []Val, call ssa.CallInstruction) Val {
+			v := fc.freshVal(st, res(call), "timer")
+			if v.K == KAddr && v.A != nil {
+				fc.sc.assume(tAnd(tNot(tEq(v.A.Base, "0")), tSel(fc.alloc(st), v.A.Base)))
+				fc.nonNil[v.A.Base] = true
+			}
+			return v
+		}
+	}
 	envFuncs["time.Since"] = func(fc *FnCtx, fr *Frame, st *State, reach string, args []Val, call ssa.CallInstruction) Val {
 		now := freshTime(fc, st, args[0].T, "")
 		d := fc.nameTerm("tsince", "Int", sx("-", tnanos(fc, now), tnanos(fc, args[0])))
